@@ -182,6 +182,16 @@ HitsSound(G, O, k, d, L) ==
 Plus1(s) == {s[j] + 1 : j \in 1..Len(s)}
 HitFaces(L) == {L[j].f + 1 : j \in 1..Len(L)}
 
+\* Named deviation EmbreeMultiHitCap: the ray crosses more than HitCap triangles and the multi-hit query
+\* returned exactly the HitCap nearest crossings and nothing else (every reported hit is sound, see s1) - the
+\* silent default max_hits = 20 of the embree wrapper's intersects_id, which intersects_location and
+\* contains_points cannot raise.  Decided from the input and the shape of the answer alone.
+HitCap == 20
+Truncated(v, L) ==
+    LET H == v.hits  R == HitFaces(L) IN
+    /\ Cardinality(H) > HitCap /\ Len(L) = HitCap /\ Cardinality(R) = HitCap /\ R \subseteq H
+    /\ \A f \in R : \A g \in H \ R : Before(v.fs[f], v.fs[g])
+
 \* engine observation e:
 \*   locm / loc1   intersects_location(multiple_hits = True / False) for this ray
 \*   idm / id1     intersects_id(multiple_hits = True / False): faces
@@ -195,6 +205,7 @@ EngClause(G, c, v, e) ==
         s2 == HitsSound(G, O, k, d, e.loc1)
         phantom(f) == f >= 0 /\ f < Len(G) /\ v.fs[f + 1].inplane IN
     IF s1 # "ok" THEN "multi:" \o s1
+    ELSE IF Truncated(v, e.locm) THEN "multi:crossed_triangles_missed_beyond_the_first_20"
     ELSE IF ~(H \subseteq HitFaces(e.locm)) THEN "multi:crossed_triangle_missed"
     ELSE IF Len(e.locm) # Cardinality(H) THEN "multi:hit_count_differs_from_crossings"
     ELSE IF s2 # "ok" THEN "first:" \o s2
@@ -338,7 +349,7 @@ InputSane ==
 \* ------------------------------------------------------------ laws of the reference itself
 \* (on the records flagged c.laws)  closed surface: the numbers of crossings along d and along -d have
 \* the same parity, and two parity directions classify a point alike; the surface is no farther than
-\* the nearest vertex
+\* the nearest vertex of a face
 RefSane ==
     LET c == Cases[i]  G == Geo[c.m]  closed == Meshes[c.m].closed IN
     c.laws =>
@@ -346,10 +357,11 @@ RefSane ==
       THEN closed =>
              LET v == View(G, c.o, c.k, c.d)  w == View(G, c.o, c.k, Scale(-1, c.d)) IN
              (~v.deg /\ ~w.deg) => (Cardinality(v.hits) + Cardinality(w.hits)) % 2 = 0
-      ELSE LET V == Meshes[c.m].verts
+      ELSE LET V == Meshes[c.m].verts  F == Meshes[c.m].faces
                md == MinDist2(G, Len(G), c.p, c.k)
                j1 == FirstClear(G, c.p, c.k, 1)
                j2 == IF j1 = 0 THEN 0 ELSE FirstClear(G, c.p, c.k, j1 + 1) IN
-           /\ md[1] * c.k * c.k <= MinVert2(V, Len(V), c.p, c.k) * md[2]
+           \* (vertices of faces only: a mesh may carry vertices no face refers to)
+           /\ \A f \in 1..Len(F) : \A j \in 1..3 : md[1] * c.k * c.k <= VDist2(V, F[f][j] + 1, c.p, c.k) * md[2]
            /\ (closed /\ j2 # 0) => (OddAlong(G, c.p, c.k, j1) = OddAlong(G, c.p, c.k, j2))
 =============================================================================
